@@ -182,7 +182,7 @@ func New(prog *ssa.Program, pkgs []*packages.Package, opt Options) (*Engine, err
 	// only non-Go parts are two intrinsics (length of / swap within a slice held in an interface)
 	if nd := prog.ImportedPackage(NDPkg); nd != nil {
 		for lib, model := range map[string]string{"sort.SliceStable": "ModelSortSliceStable", "sort.Slice": "ModelSortSliceStable",
-			"sort.SliceIsSorted": "ModelSliceIsSorted"} {
+			"sort.SliceIsSorted": "ModelSliceIsSorted", "time.AfterFunc": "ModelAfterFunc"} {
 			if f := nd.Func(model); f != nil {
 				e.hooks[lib] = Func{Fn: f}
 			}
